@@ -120,7 +120,6 @@ func (ctx *BrokerContext) Broker() {
 			case <-time.After(time.Second * ProxyTimeout):
 				// This snowflake is no longer available to serve clients.
 				ctx.snowflakeLock.Lock()
-				defer ctx.snowflakeLock.Unlock()
 				if snowflake.index != -1 {
 					if request.natType == NATUnrestricted {
 						heap.Remove(ctx.snowflakes, snowflake.index)
@@ -130,6 +129,13 @@ func (ctx *BrokerContext) Broker() {
 					ctx.metrics.promMetrics.AvailableProxies.With(prometheus.Labels{"nat": request.natType, "type": request.proxyType}).Dec()
 					delete(ctx.idToSnowflake, snowflake.id)
 					close(request.offerChannel)
+					ctx.snowflakeLock.Unlock()
+				} else {
+					// A client claimed this snowflake just before the timeout
+					// and is about to send its offer: pass it on, otherwise
+					// both the client and the proxy would wait forever.
+					ctx.snowflakeLock.Unlock()
+					request.offerChannel <- <-snowflake.offerChannel
 				}
 			}
 		}(request)
@@ -146,7 +152,9 @@ func (ctx *BrokerContext) AddSnowflake(id string, proxyType string, natType stri
 	snowflake.proxyType = proxyType
 	snowflake.natType = natType
 	snowflake.offerChannel = make(chan *ClientOffer)
-	snowflake.answerChannel = make(chan string)
+	// Buffered, so that an answer arriving just after its client timed out
+	// does not block the proxy's request forever.
+	snowflake.answerChannel = make(chan string, 1)
 	ctx.snowflakeLock.Lock()
 	if natType == NATUnrestricted {
 		heap.Push(ctx.snowflakes, snowflake)
